@@ -1,5 +1,5 @@
 """C10 helper: assembles the three small ELF files with DWARF the bounded-exhaustive exploration
-runs on (2-3 units, <= 12 entries per unit, one shared line program, one CIE + two FDEs, a symbol
+runs on (2-3 units, <= 12 entries per unit, one shared line program, one CIE + two FDEs that name different registers, a symbol
 table with a duplicated name, a dynamic table with entries after DT_NULL).  Pure Python, no
 compiler, deterministic.  Nothing here is used as a specification: the bytes are just inputs;
 what they mean is tabulated from a freshly opened object (see c10.py)."""
@@ -378,7 +378,7 @@ def file_a():
     info, abbrev, labels = b.build_info([u0, u1])
     prog = b.lp_set_address(0x1000) + bytes([0x14, 0x21, 0x02, 0x04]) + b.lp_end_sequence
     line = b.line_v4(4, [(b'a.c', 0), (b'b.c', 0)], prog)
-    frame = b.frame([(0x1000, 0x20, bytes([0x41, 0x0e, 16])), (0x1020, 0x10, bytes([0x42, 0x0e, 24, 0x86, 2]))])
+    frame = b.frame([(0x1000, 0x20, bytes([0x41, 0x0e, 16, 0x83, 3])), (0x1020, 0x10, bytes([0x42, 0x0e, 24, 0x86, 2]))])
     dynstr = b'\0libc.so.6\0liba.so\0'
     img = elf_image(True, True,
                     [(b'.text', 1, b'\x90' * 32, 6), (b'.debug_info', 1, info, 0), (b'.debug_abbrev', 1, abbrev, 0),
@@ -419,7 +419,7 @@ def file_b():
     info, abbrev, labels = b.build_info([u0, u1, u2])
     prog = b.lp_set_address(0x400, 4) + bytes([0x15, 0x03, 0x02, 0x2f]) + b.lp_end_sequence
     line = b.line_v5([b'/src'], [(b'm.c', 0), (b'n.c', 0)], prog, addr_size=4)
-    frame = b.frame([(0x400, 0x10, bytes([0x41, 0x0e, 8])), (0x410, 0x8, bytes([0x44, 0x0e, 12, 0x0a, 0x0b]))],
+    frame = b.frame([(0x400, 0x10, bytes([0x41, 0x0e, 8, 0x85, 2])), (0x410, 0x8, bytes([0x44, 0x0e, 12, 0x87, 3, 0x0a, 0x0b]))],
                     addr_size=4, version=3)
     dynstr = b'\0libm.so\0'
     img = elf_image(False, False,
@@ -453,7 +453,7 @@ def file_c():
     prog = (b.lp_set_address(0x3000) + bytes([0x13]) + Builder.lp_define_file(b'gen.h') + bytes([0x21]) +
             Builder.lp_define_file(b'gen2.h') + bytes([0x02, 0x03]) + b.lp_end_sequence)
     line = b.line_v4(3, [(b'p.c', 1)], prog, dirs=(b'/d',))
-    frame = b.frame([(0x3000, 0x40, bytes([0x48, 0x0e, 32])), (0x3040, 0x4, b'')])
+    frame = b.frame([(0x3000, 0x40, bytes([0x48, 0x0e, 32, 0x8c, 1])), (0x3040, 0x4, b'')])
     dynstr = b'\0libz.so.1\0me.so\0'
     img = elf_image(True, True,
                     [(b'.debug_info', 1, info, 0), (b'.debug_abbrev', 1, abbrev, 0), (b'.debug_str', 1, bytes(b.strtab), 0),
